@@ -88,6 +88,26 @@ def run(ctx, res):
         d = max(float(np.abs(a - b).max()) for a, b in zip(m_multi.fractions + m_multi.orientations, m_single.fractions + m_single.orientations))
         if d > tol:
             res.violation("own_fraction:integrated_differs", f"integrated multiphase vs scaled single-phase differ by {d:.3e}", rep)
+        # (i') the regime is declared by the `get_regime` callable while the mineral object was BUILT in another regime (one without
+        # boundary migration): the mineral's own phase fraction must enter exactly as for the mineral built in that regime
+        stored = int([1, 0, 7][k % 3])
+        gr = lambda t, x, r_=core.DeformationRegime(sc["regime"]): r_  # noqa: E731
+        gr.desc = f"constant regime {sc['regime']} declared by get_regime; mineral built with regime {stored}"
+        sc_cb = dict(sc, get_regime=gr)
+        m_cb = solver.build_mineral(dict(sc, regime=stored))
+        try:
+            m_cb, F_cb, _ = solver.run_scenario(sc_cb, mineral=m_cb, record=False)
+            res.evaluations += 1
+            res.count("regime declared by get_regime on a mineral built in another regime")
+            d_cb = max(float(np.abs(np.asarray(a) - np.asarray(b)).max())
+                       for a, b in zip(m_multi.fractions + m_multi.orientations + [F_multi[-1]], m_cb.fractions + m_cb.orientations + [F_cb[-1]]))
+            if not d_cb <= 1e-9:
+                res.violation("own_fraction:regime_from_get_regime", f"a mineral built in regime {stored} and driven with get_regime -> regime {sc['regime']} "
+                              f"differs by {d_cb:.3e} from the same mineral built in regime {sc['regime']} (phase fraction {phi}): the mineral's own "
+                              "volume fraction is not applied when the regime comes from the callable", dict(rep, get_regime=gr.desc))
+        except Exception as e:  # noqa: BLE001
+            res.violation("own_fraction:regime_from_get_regime:raises", f"update with get_regime on a mineral built in regime {stored} raised "
+                          f"{type(e).__name__}: {str(e)[:160]}", dict(rep, get_regime=gr.desc))
         solver.check_rhs(res, sc, m_multi, rec_multi, max_points=2)
         solver.check_rhs(res, sc1, m_single, rec_single, max_points=2, tag="K12 eval_rhs (single phase)")
         # (ii) permuted assemblage + fractions
